@@ -5,7 +5,7 @@ D=${VF_DIR:-/tmp/vf}
 mkdir -p $D
 F=$1; shift
 python3 "$(dirname "$0")/extract.py" --repo ${VERIF_REPO:-/repo} --out $D >/dev/null || exit 2
-cd $D && verus woven.rs --triggers-mode silent --multiple-errors 20 --rlimit 60 --verify-root --verify-function "$F" --error-format=json "$@" 2>&1 | python3 -c "
+cd $D && verus woven.rs --triggers-mode silent --multiple-errors 20 --rlimit 800 --verify-root --verify-function "$F" --error-format=json "$@" 2>&1 | python3 -c "
 import sys,json
 for l in sys.stdin:
     l=l.strip()
